@@ -4045,7 +4045,8 @@ func (a *Association) popPendingDataChunksToSend( //nolint:cyclop,gocognit
 		}
 	}
 
-	if a.blockWrite && len(chunks) > 0 && a.pendingQueue.size() == 0 {
+	// (an end-of-stream marker taken off the queue empties it just as well as data does)
+	if a.blockWrite && (len(chunks) > 0 || len(sisToReset) > 0) && a.pendingQueue.size() == 0 {
 		a.log.Tracef("[%s] all pending data have been sent, notify writable", a.name)
 		a.notifyBlockWritable()
 	}
